@@ -721,9 +721,9 @@ class ProvActivity(ProvElement):
             parsed by :py:func:`dateutil.parser`.
         """
         if startTime is not None:
-            self._attributes[PROV_ATTR_STARTTIME] = {startTime}
+            self._attributes[PROV_ATTR_STARTTIME] = {_ensure_datetime(startTime)}
         if endTime is not None:
-            self._attributes[PROV_ATTR_ENDTIME] = {endTime}
+            self._attributes[PROV_ATTR_ENDTIME] = {_ensure_datetime(endTime)}
 
     def get_startTime(self):
         """
